@@ -12,6 +12,7 @@ import (
 	"encoding/json"
 	"fmt"
 	"os"
+	"path/filepath"
 	"strings"
 
 	"github.com/janelia-flyem/dvid/datastore"
@@ -250,6 +251,25 @@ func runC12(c *vlib.Ctx) {
 		c12Judge(c, old, rec.Lines, cls, ctxt, rep)
 	})
 	c12Histories(c, &states, &transitions)
+	// schedules: the identifier scenarios (S6*: nextlabel, new instance / repo / version pairs, ingest of a label above the
+	// maximum against an allocation) are explored under the cooperative scheduler by workers of the instrumented binary
+	{
+		sched := filepath.Join(os.Getenv("VERIF_DIR"), ".build", "vsched")
+		if _, err := os.Stat(sched); err != nil {
+			c.Violate("harness:no-instrumented-binary", "the scheduler-instrumented binary "+sched+" is missing: "+err.Error(), nil)
+		} else {
+			vlib.PoolExe["c11"] = sched
+			bound, maxExec := 2, 4000
+			if c.Thorough() {
+				bound, maxExec = 3, 60000
+			}
+			st, tr := c11Explore(c, func(name string) bool { return strings.HasPrefix(name, "S6") }, "sched:", bound, maxExec)
+			states += st
+			transitions += tr
+			c.Set("schedule_executions", st)
+			c.Assume("schedules: operations between two scheduling points (lock, WaitGroup, goroutine start, store call) run atomically; a violation is reported only if its schedule reproduces it 3 times out of 3")
+		}
+	}
 	c.Set("states", states)
 	c.Set("transitions", transitions)
 	c.Set("traces_validated_against_impl", int64(len(jobs)))
